@@ -19,7 +19,9 @@ RULE = ("seeded random integer data matrices (families: latent-factor correlated
         "mode, one common exponent in covariance mode; outputs descaled exactly) --, independent columns, exactly rank-deficient, repeated eigenvalues (Walsh patterns)), 2<=m<=12 "
         "(thorough <=40), 1<=p<=4 (thorough <=8), both m>p (SVD path) and m<=p (covariance/EVD path); every 1<=k<=p in "
         "covariance and correlation mode; truncated SVD for every k<p and the rejected k=p; three query rows transformed "
-        "stacked and separately. Non-trivial = p>=2 and the data are not already axis-aligned (the projection has an "
+        "stacked and separately; one data set in eight through the api traits UnsupervisedEstimator::fit / Transformer::transform; "
+        "size ladder m in {63,64,65,255,256,257,1023,1024,1025} (thorough also 127..129, 511..513) of three-valued columns. "
+        "Non-trivial = p>=2 and the data are not already axis-aligned (the projection has an "
         "off-diagonal entry above 2^-4), or a rejected k=p; distinct = distinct (X, mode, k)")
 
 
@@ -54,7 +56,8 @@ def run(ctx):
                             must_hit=("Pca_cov_svd_k", "Pca_cov_svd_full", "Pca_cov_evd_k", "Pca_cov_evd_full",
                                       "Pca_corr_k", "Pca_corr_full", "Tsvd", "TsvdReject",
                                       "Offset_cov_svd", "Offset_cov_evd", "Offset_corr",
-                                      "Scaled_cov_svd", "Scaled_cov_evd", "Scaled_corr_tall", "Scaled_corr_wide"))
+                                      "Scaled_cov_svd", "Scaled_cov_evd", "Scaled_corr_tall", "Scaled_corr_wide",
+                                      "Entry_api", "Rows_63_257", "Rows_1023_1025"))
     hits = v.get("hits", {})
     for (l, runid, ev, clause) in bads:
         e = events[l - 1]
